@@ -19,7 +19,8 @@ endfunction()
 SLICE = 12
 KINDS = ["ins-quote", "del-quote", "backslash-alnum", "open-bracket-comment-0", "open-bracket-comment-1",
          "extra-lparen", "extra-rparen", "del-paren", "bare-word", "stray-quoted", "stray-bracket"]
-PARSE_TIME = {"unterminated-string", "unterminated-bracket", "unterminated-bracket-comment", "paren-imbalance", "stray-text"}
+PARSE_TIME = {"unterminated-string", "unterminated-bracket", "unterminated-bracket-comment", "paren-imbalance", "stray-text",
+              "text-after-command-on-same-line"}
 
 
 def base_module(seed, tier, j):
@@ -210,6 +211,11 @@ class Prop(BaseProp):
                     res.count("mutants_legacy_skipped")
                     continue
                 reason = mref.invalid[0]
+                if reason == "text-after-command-on-same-line":
+                    # invalid for CMake (a newline must follow every command) but not one of the fault classes C06 lists;
+                    # typically produced by a pair of parenthesis faults splitting one command into two on one line
+                    res.count("mutants_outside_listed_fault_classes_skipped")
+                    continue
                 # is the fault itself inside a comment of the mutant? (e.g. a quote inserted into a trailing comment)
                 res.count("mutants_invalid_asserted")
                 kbase = kind.split("(")[0]
